@@ -99,7 +99,7 @@ func purityRule(r *R, rule string, fn *ssa.Function, cut map[string]bool, leafEx
 	sort.Slice(gs, func(i, j int) bool { return gs[i].String() < gs[j].String() })
 	for _, g := range gs {
 		og := r.Ob(rule, "global-read:"+g.Pkg.Pkg.Name()+"."+g.Name()).AtI(gr[g][0])
-		if g.Pkg.Pkg.Path() == modPath+"/pkg/fingerprint" && (g.Name() == "VerboseLogs" || g.Name() == "Logger") {
+		if g.Pkg.Pkg.Path() == modPath+"/pkg/fingerprint" && (g.Name() == c.nowName("pkg/fingerprint", "VerboseLogs") || g.Name() == c.nowName("pkg/fingerprint", "Logger")) {
 			og.OK("logging switch (cannot influence the returned value: only read by the cut vlogf)")
 			continue
 		}
